@@ -75,17 +75,7 @@ def prov2(ctx, pid):
     else:
         ctx.bad(cst, init.loc(), "_default is assigned %d time(s) (%s); it must be the constructor's `default` only"
                 % (len(stores), ", ".join("%s: %s" % (fkey(g), util.norm_src(e.node)) for g, e in stores)))
-    # the initial tree is built from the default leaf
-    ok = False
-    for p, st in pq.states(ctx, init):
-        if p.exit[0] == "raise":
-            continue
-        n0 = st.env.get("node")
-    src = ast.unparse(init.node).replace(" ", "")
-    if "node=self._default" in src or "node=default" in src:
-        ctx.ok("initial-leaf:SparseMerkleTree.__init__", init.loc(), "the empty tree is folded up from the default leaf", nontrivial=False)
-    else:
-        ctx.bad("initial-leaf:SparseMerkleTree.__init__", init.loc(), "the empty tree is not built from the configured default")
+    # (that the initial tree is folded up from the default leaf is decided by SMTINIT, on terms)
     # PROV13 from_db forwards key_size / default, installs db and root
     g = c.methods["from_db"]
     ctor = [n for n in walk_shallow(g.node) if isinstance(n, ast.Call) and any(t.kind == "ctor" and t.cls is c for t in ctx.R.resolve_call(n, g, count=False))]
@@ -131,6 +121,25 @@ def prov2(ctx, pid):
             ctx.bad("dunder:SparseMerkleTree.%s" % dn, d.loc(), "%s does not simply forward to %s" % (dn, mn), rule="SIB1")
 
 
+def _bit_names(f, testnode):
+    """(name of the moving bit variable, names assigned in the arms of the `if path & bit`) found from the
+    syntax around the tested expression, so that the rule does not depend on what the locals are called."""
+    ops = [n.id for n in ast.walk(testnode) if isinstance(n, ast.Name)]
+    bitvar = None
+    for n in walk_shallow(f.node):
+        if isinstance(n, ast.AugAssign) and isinstance(n.target, ast.Name) and n.target.id in ops and isinstance(n.op, (ast.LShift, ast.RShift)):
+            bitvar = n.target.id
+    assigned = []
+    for n in walk_shallow(f.node):
+        if isinstance(n, ast.If) and n.test is testnode:
+            for arm in (n.body, n.orelse):
+                for s_ in arm:
+                    if isinstance(s_, ast.Assign) and isinstance(s_.targets[0], ast.Name):
+                        assigned.append(s_.targets[0].id)
+    nodevar = assigned[0] if assigned and len(set(assigned)) == 1 else None
+    return bitvar, nodevar
+
+
 @rule("SIB5", ["C14", "C15"])
 def sib5(ctx, pid):
     """Bit direction and sibling orientation agree in _get / set / calc_root: a set bit means the
@@ -147,6 +156,7 @@ def sib5(ctx, pid):
             tt, pp = truth_norm(t, pol)
             if tt[0] == "bin" and tt[1] == "&":
                 bit = (tt, pp)
+                bitvar, nodevar = _bit_names(f, node)
         if bit is None:
             continue
         seen += 1
@@ -159,7 +169,7 @@ def sib5(ctx, pid):
                 tg = ctx.R.resolve_call(ev.node, f, count=False)[0]
                 if tg.kind == "cmeth" and tg.meth == "append":
                     apps.append(eng.ev(ev.node.args[0], f, st))
-        nh = st.env.get("node_hash")
+        nh = st.env.get(nodevar)
         if not apps or nh is None or nh[0] != "slice" or apps[0][0] != "slice":
             probs.append("cannot interpret the descent step")
             continue
@@ -181,7 +191,7 @@ def sib5(ctx, pid):
         want_tb = ("bin", "<<", C(1), ("bin", "-", ("attr", ("self",), "depth"), C(1)))
         if b != want_tb:
             probs.append("first tested bit is `%s`, expected 1 << (depth - 1) (MSB first, root -> leaf)" % tstr(b)[:50])
-        tb_after = st.env.get("target_bit")
+        tb_after = st.env.get(bitvar)
         if tb_after != ("bin", ">>", want_tb, C(1)):
             probs.append("the tested bit moves by `%s`, expected >>= 1" % tstr(tb_after)[:50])
     c = "direction:SparseMerkleTree._get"
@@ -192,7 +202,7 @@ def sib5(ctx, pid):
     else:
         ctx.ok(c, f.loc(), "MSB first; bit set -> go right, collect the left sibling; bit clear -> go left, collect the right sibling")
     # ---- set / calc_root (leaf -> root)
-    for q, nodevar in ((SMT + ".set", "node"), ("trie.smt:calc_root", "node_hash")):
+    for q in (SMT + ".set", "trie.smt:calc_root"):
         f = ctx.P.func(q)
         probs = []
         seen = 0
@@ -202,6 +212,7 @@ def sib5(ctx, pid):
                 tt, pp = truth_norm(t, pol)
                 if tt[0] == "bin" and tt[1] == "&":
                     bit = (tt, pp)
+                    bitvar, nodevar = _bit_names(f, node)
             if bit is None:
                 continue
             seen += 1
@@ -210,8 +221,8 @@ def sib5(ctx, pid):
                 tt = (tt[0], tt[1], tt[3], tt[2])  # `&` is commutative
             if tt[3] != C(1):
                 probs.append("first tested bit is `%s`, expected 1 (LSB first, leaf -> root)" % tstr(tt[3])[:40])
-            if st.env.get("target_bit") != ("bin", "<<", C(1), C(1)) and st.env.get("target_bit") != C(2):
-                probs.append("the tested bit moves by `%s`, expected <<= 1" % tstr(st.env.get("target_bit"))[:40])
+            if st.env.get(bitvar) != ("bin", "<<", C(1), C(1)) and st.env.get(bitvar) != C(2):
+                probs.append("the tested bit moves by `%s`, expected <<= 1" % (tstr(st.env.get(bitvar))[:40] if bitvar else None))
             if tt[2] != ("call", "ext:eth_utils.to_int", (("p", "key"),), ()):
                 probs.append("the tested path is `%s`, not to_int(key)" % tstr(tt[2])[:40])
             nv = st.env.get(nodevar)
@@ -254,13 +265,20 @@ def sib5(ctx, pid):
     f = ctx.P.func(SMT + ".set")
     rets = set()
     apps = set()
+    # the list that is returned (reversed): tuple(reversed(<name>))
+    pu = None
+    for n in walk_shallow(f.node):
+        if isinstance(n, ast.Return) and n.value is not None:
+            nm = [x.id for x in ast.walk(n.value) if isinstance(x, ast.Name) and x.id not in ("tuple", "reversed", "list")]
+            if len(nm) == 1:
+                pu = nm[0]
     for p, st in pq.states(ctx, f, unroll=1):
         if p.exit[0] == "return":
             rets.add(st.ret)
         for ev in st.events:
             if ev.k == "call" and ev.a == "ok":
                 tg = ctx.R.resolve_call(ev.node, f, count=False)[0]
-                if tg.kind == "cmeth" and tg.meth == "append" and isinstance(tg.recv, ast.Name) and tg.recv.id == "proof_update":
+                if tg.kind == "cmeth" and tg.meth == "append" and isinstance(tg.recv, ast.Name) and tg.recv.id == pu:
                     apps.add(eng.ev(ev.node.args[0], f, st))
     # the leaf that is written is the given value itself
     leafs = set()
@@ -271,7 +289,7 @@ def sib5(ctx, pid):
         for ev in st.events:
             if ev.k == "call" and ev.a == "ok":
                 tg = ctx.R.resolve_call(ev.node, f, count=False)[0]
-                if tg.kind == "cmeth" and tg.meth == "append" and isinstance(tg.recv, ast.Name) and tg.recv.id == "proof_update" and first is None:
+                if tg.kind == "cmeth" and tg.meth == "append" and isinstance(tg.recv, ast.Name) and tg.recv.id == pu and first is None:
                     first = eng.ev(ev.node.args[0], f, st)
         if first is not None:
             leafs.add(first)
@@ -565,7 +583,11 @@ def smtinit(ctx, pid):
             it = eng.ev(ev.b, f, st)
             if it != ("call", "ext:range", (eng.mk_bin("*", ks, C(8)),), ()) and it != ("call", "ext:range", (("attr", ("self",), "depth"),), ()):
                 probs.append("the fold loop runs over `%s`, expected range(depth)" % tstr(it)[:40])
-        node = st.env.get("node")
+        root = st.attrs.get("self.root_hash")
+        node = root[2][0] if root is not None and root[0] == "call" and root[1] == KECCAK and len(root[2]) == 1 else None
+        dflt = (("p", f.params[2]), ("attr", ("self",), "_default"))
+        if not loops and node is not None and node not in dflt:
+            probs.append("with no level the top node is `%s`, not the default leaf" % tstr(node)[:40])
         if loops and node is not None:
             # after one iteration: node = h + h with h = keccak(previous node)
             if not (node[0] == "bin" and node[1] == "+" and node[2] == node[3] and node[2][0] == "call" and node[2][1] == KECCAK):
@@ -574,8 +596,7 @@ def smtinit(ctx, pid):
                 inner = node[2][2][0]
                 if inner != ("p", f.params[2]) and inner != ("attr", ("self",), "_default"):
                     probs.append("the fold starts from `%s`, not from the default leaf" % tstr(inner)[:40])
-        root = st.attrs.get("self.root_hash")
-        if root is None or not (root[0] == "call" and root[1] == KECCAK and root[2][0] == node):
+        if root is None or node is None:
             probs.append("root_hash is `%s`, expected keccak of the top node" % (tstr(root)[:50] if root else None))
     c = "empty-tree:SparseMerkleTree.__init__"
     if probs:
